@@ -183,7 +183,8 @@ func runReplay(o *Obligation, dir, pkg, src string) (string, bool) {
 	cmd.Stderr = &out
 	cmd.Run()
 	output := out.String()
-	real := strings.Contains(output, "VIOLATED:")
+	// a replay that runs into go test's 60 s timeout is the real code not terminating on the replayed input
+	real := strings.Contains(output, "VIOLATED:") || strings.Contains(output, "panic: test timed out")
 	base := filepath.Join(dir, sanitize(o.Name))
 	os.WriteFile(base+".go.txt", []byte(src), 0o644)
 	m := map[string]interface{}{
